@@ -46,6 +46,11 @@ CHECKS = {
         "note": "Trusted: Lean kernel; harness. The per-object gauge invariant (GaugeOK) is stated and used but its preservation is checked by the correspondence, not yet proved.",
         "technique": "Lean 4 proof (inductive invariant over operation histories) + differential correspondence + trace oracle",
     },
+    "C10": {
+        "text": "Lean theorems over the decision function of the admin mux: the credential check passes exactly for 'Bearer <token>' (bearer_exact, auth_exact), only /v1/health is open (route table), refused requests run no handler and change nothing, the IP stage passes iff the peer parses, is in no deny entry and the allow list is empty or contains it (ip_policy), deny wins, unparsable peers and malformed lists are refused, and no client header is an input of the decision. Tied to the code by differential requests against the real NewMux over a real balancer with state digests before/after each request and an independent oracle.",
+        "note": "Trusted: Lean kernel; net.ParseIP/ParseCIDR/Contains (model works on parsed values rendered by the generator); net/http.ServeMux routing; route table mirrored by hand and exercised route by route.",
+        "technique": "Lean 4 proof (decision logic stated outright) + differential correspondence + trace oracle",
+    },
 }
 
 NOT_APPLICABLE = {}
